@@ -75,7 +75,9 @@ theorem replayGo_core : ∀ (l : List Stmt) (s : BSt), Core s (replayRing.go s l
     unfold replayRing.go
     dsimp only
     split
-    · exact dispatch_core s x
+    · split
+      · exact ((dispatch_core s x).trans (Core.emit _ _)).trans (replayGo_core xs _)
+      · exact dispatch_core s x
     · exact (dispatch_core s x).trans (replayGo_core xs _)
 
 theorem replayRing_core (s : BSt) (lgi : Nat) : Core s (replayRing s lgi).1 := by
